@@ -349,6 +349,8 @@ def generic(prop, facets, rule, configs_fn, args_tier=None, seeds=None, mode='rr
     res = run_generated(cfgs, 'harness.judge_compose.judge', p, seeds=seeds, mode=mode)
     run_generated([terms_config('curated-programs-under-every-hash-seed', CURATED_TERMS)], 'harness.judge_compose.judge', p,
                   seeds=list(seeds), mode='all', result=res)
+    if prop in HEAP_STAGE:
+        heap_stage(prop, tier, seeds, res)
     swept = codepoint_sweep(tier, res) if prop == 'C01' else 0
     st = res.agg.stats
     cov = {'states': res.states, 'transitions': res.transitions,
@@ -365,6 +367,30 @@ def generic(prop, facets, rule, configs_fn, args_tier=None, seeds=None, mode='rr
            'exhaustive': True}
     return report(prop, tier, seed, res.agg.failures, cov, time.time() - t0, ASSUME + list(extra_assume),
                   res.model_violations)
+
+
+HEAP_STAGE = {
+    'C01': ('operands-with-a-history', {'dollar', 'ab', 'a'}, {'concat', 'add', 'either', 'optional', 'exactly', 'compile'}),
+    'C02': ('operands-with-a-history', {'ab', 'alt', 'altdup'}, {'group_ci', 'group', 'optional', 'mul', 'add', 'either', 'match_at_line_start'}),
+    'C03': ('operands-with-a-history', {'a', 'anchor'}, {'capture_n', 'capture_m', 'group', 'add', 'one_or_more', 'refused'}),
+    'C04': ('operands-with-a-history', {'ab', 'alt', 'a'}, {'optional', 'one_or_more', 'exactly', 'mul', 'at_most', 'refused'}),
+    'C05': ('operands-with-a-history', {'empty', 'a', 'anchor'}, {'concat', 'add', 'either', 'enclose', 'optional', 'exactly', 'capture', 'followed_by'}),
+    'C06': ('operands-with-a-history', {'aei', 'between', 'a'}, {'invert', 'or', 'concat', 'optional', 'compile'}),
+    'C07': ('operands-with-a-history', {'aei', 'ce', 'from', 'between'}, {'or', 'sub', 'invert', 'refused'}),
+    'C08': ('operands-with-a-history', {'grp_ci', 'ab', 'alt'}, {'group', 'group_ci', 'capture', 'capture_n', 'add', 'match'}),
+    'C09': ('operands-with-a-history', {'bos', 'anchor', 'a'}, {'one_or_more', 'exactly', 'mul', 'at_most', 'optional', 'refused', 'add'}),
+    'C10': ('operands-with-a-history', {'a', 'ab', 'alt'}, {'not_preceded_by', 'followed_by', 'optional', 'one_or_more', 'refused'}),
+}
+
+
+def heap_stage(prop, tier, seeds, res, n_quick=4):
+    """Operands that have a history: the same objects re-used after other calls were made on them (PregexHeap),
+    restricted to the operators the property talks about; every history is replayed and every live object re-observed."""
+    from .checks_heap import heap_config
+    name, leaves, ops = HEAP_STAGE[prop]
+    n = n_quick if tier == 'quick' else n_quick + 1
+    run_generated([heap_config(name + '-len%d' % n, leaves, ops, n, n)], 'harness.judge_heap.judge', {'prop': prop},
+                  seeds=list(seeds)[:2], mode='all', batch=50, result=res)
 
 
 RULE = 'every distinct state of the builder state machine (one surface term with its intended outcome) is replayed ' \
